@@ -10,35 +10,165 @@ external c_to_str : int -> string option = "vp_comp_to_str"
 external c_from_str : string -> int option = "vp_comp_from_str"
 
 let engine = "c15"
-let rule = "buffers: every length 0..64 x {zeros, ramp, 0xFF, pseudo-random} and random structured buffers up to 64 KiB (quick) / 2 MiB (thorough) x 5 algorithms x {mtbl_compress, mtbl_compress_level with levels -10000,-5,-1,0,1,3,9,10,12,19,22,100}. Names: all table names in lower/upper/mixed case, near misses, unknown strings, out-of-range enum values. Non-trivial: length >= 1 or a level outside the library's range; distinct by (algorithm, level, content)."
+let rule = "library boundary: every round trip records the (level, capacity, source length) handed to zlib/lz4/zstd/snappy and checks the hypotheses of T15a on them; bound formulas of the model vs the libraries on 0..600, powers of two +-, random sizes; sizes above INT_MAX refused. buffers: every length 0..64 x {zeros, ramp, 0xFF, pseudo-random} and random structured buffers up to 64 KiB (quick) / 2 MiB (thorough) x 5 algorithms x {mtbl_compress, mtbl_compress_level with levels -10000,-5,-1,0,1,3,9,10,12,19,22,100}. Names: all table names in lower/upper/mixed case, near misses, unknown strings, out-of-range enum values. Non-trivial: length >= 1 or a level outside the library's range; distinct by (algorithm, level, content)."
 
 let levels = [| None; Some (-10000); Some (-5); Some (-1); Some 0; Some 1; Some 3; Some 9; Some 10; Some 12; Some 19; Some 22; Some 100 |]
 
-let roundtrip alg (lvl : int option) (s : string) : string =
+external c_rec_start : unit -> unit = "vp_rec_start"
+external c_rec_stop : unit -> string = "vp_rec_stop"
+external c_lib_bound : int -> int64 -> int64 = "vp_lib_bound"
+external c_huge_call : int -> bool -> int64 -> int = "vp_huge_call"
+
+(* Coq Z <-> int *)
+let z_of_int i = if i = 0 then Z0 else if i > 0 then Zpos (pos_of_int i) else Zneg (pos_of_int (- i))
+let int_of_z = function Z0 -> 0 | Zpos p -> int_of_pos p | Zneg p -> - (int_of_pos p)
+
+let zstd_min = lazy (Int64.to_int (c_lib_bound 3 0L))
+let zstd_max = lazy (Int64.to_int (c_lib_bound 4 0L))
+
+(* library calls recorded in the child: (fn, level, srclen, cap, ret) *)
+let parse_calls (s : string) =
+  List.filter_map (fun item ->
+    match List.map int_of_string (String.split_on_char ',' item) with
+    | [ fn; lvl; src; cap; ret ] -> Some (fn, lvl, src, cap, ret)
+    | _ -> None
+    | exception _ -> None) (String.split_on_char ';' s)
+
+(* result of one round trip in a forked child: outcome, calls made by the compression, calls made by the decompression *)
+let roundtrip alg (lvl : int option) (s : string) : string * (int * int * int * int * int) list * (int * int * int * int * int) list =
   match in_child (fun () ->
+      c_rec_start ();
       let c = (match lvl with None -> Wr.c_compress alg false 0 s | Some l -> Wr.c_compress alg true l s) in
+      let cc = c_rec_stop () in
       match c with
-      | None -> "COMPRESS_FAILED"
+      | None -> "COMPRESS_FAILED|" ^ cc ^ "|"
       | Some z ->
-        (match Wr.c_decompress alg z with
+        c_rec_start ();
+        let d = Wr.c_decompress alg z in
+        let dc = c_rec_stop () in
+        (match d with
          | None -> "DECOMPRESS_FAILED"
-         | Some d -> if d = s then "OK" else "MISMATCH")) with
-  | Exited (_, r) -> r
-  | Signaled (sg, _) -> if sg = Sys.sigabrt then "SIGABRT" else Printf.sprintf "SIGNAL%d" sg
+         | Some d -> if d = s then "OK" else "MISMATCH") ^ "|" ^ cc ^ "|" ^ dc) with
+  | Exited (_, r) ->
+    (match String.split_on_char '|' r with
+     | [ o; cc; dc ] -> (o, parse_calls cc, parse_calls dc)
+     | _ -> (r, [], []))
+  | Signaled (sg, _) -> ((if sg = Sys.sigabrt then "SIGABRT" else Printf.sprintf "SIGNAL%d" sg), [], [])
+
+let jcalls l = JL (List.map (fun (fn, lvl, src, cap, ret) -> JO [ "fn", JI fn; "level", JI lvl; "srclen", JI src; "cap", JI cap; "ret", JI ret ]) l)
+
+(* the hypotheses under which T15a_* are proved, checked on what the wrapper actually handed to the library:
+   capacity >= the library's own bound for that source length, level in the library's legal range, the
+   decompressor offered exactly the original size.  [plan_compress] (the model) is compared as well; a mere
+   difference from the plan with the hypotheses intact is counted, not failed (a roomier buffer is harmless). *)
+let check_boundary acc case alg lvl n (cc : (int * int * int * int * int) list) (dc : (int * int * int * int * int) list) =
+  let mm what extra = fail acc ~kind:"model_mismatch" ~what:("[C15] " ^ what) (JO ([ "case", Lazy.force case; "compress_calls", jcalls cc; "decompress_calls", jcalls dc ] @ extra)) in
+  let level = (match lvl with Some l -> l | None -> int_of_z (default_level (n_of_int alg))) in
+  let plan = plan_compress (z_of_int (Lazy.force zstd_min)) (z_of_int (Lazy.force zstd_max)) (n_of_int alg) (z_of_int level) (n_of_int n) in
+  let comp = List.filter (fun (fn, _, _, _, _) -> fn = 1 || fn = 2 || fn = 4 || fn = 6 || fn = 10) cc in
+  (match comp, plan with
+   | [ (fn, l, src, cap, _) ], Some (pl, pc) ->
+     let pl = int_of_z pl and pc = int_of_n pc in
+     if src <> n then mm "the library was handed a different source length than the input" [];
+     (match fn with
+      | 1 | 2 ->
+        let b = Int64.to_int (c_lib_bound 0 (Int64.of_int src)) in
+        if cap < b then mm "LZ4 destination capacity below LZ4_compressBound (hypothesis of T15a_compress_succeeds)" [ "bound", JI b ];
+        (* LZ4_compress_HC accepts every level: a different level is counted, not failed *)
+        if fn = 2 && l <> pl then bump acc "lz4hc_level_differs_from_plan";
+        if cap <> pc then bump acc "capacity_differs_from_plan"
+      | 4 ->
+        let b = Int64.to_int (c_lib_bound 1 (Int64.of_int src)) in
+        if cap < b then mm "zstd destination capacity below ZSTD_compressBound (hypothesis of T15a_compress_succeeds)" [ "bound", JI b ];
+        if l < Lazy.force zstd_min || l > Lazy.force zstd_max then mm "zstd level outside [ZSTD_minCLevel, ZSTD_maxCLevel] (T15a_levels)" [];
+        if l <> pl then bump acc "zstd_level_differs_from_plan";
+        if cap <> pc then bump acc "capacity_differs_from_plan"
+      | 6 ->
+        let b = Int64.to_int (c_lib_bound 2 (Int64.of_int src)) in
+        if cap < b then mm "snappy destination capacity below snappy_max_compressed_length (hypothesis of T15a_compress_succeeds)" [ "bound", JI b ];
+        if cap <> pc then bump acc "capacity_differs_from_plan"
+      | _ ->
+        (* zlib: deflateInit level, deflateBound of this stream, deflate's avail_out *)
+        let init = List.filter (fun (f, _, _, _, _) -> f = 8) cc and bound = List.filter (fun (f, _, _, _, _) -> f = 9) cc in
+        (match init with
+         | [ (_, il, _, _, r) ] ->
+           if il < -1 || il > 9 then mm "deflateInit level outside -1..9 (T15a_levels)" [];
+           if il <> pl then bump acc "zlib_level_differs_from_plan";
+           if r <> 0 then mm "deflateInit did not return Z_OK" []
+         | _ -> mm "expected exactly one deflateInit call" []);
+        (match bound with
+         | (_, _, bsrc, _, b) :: _ ->
+           if bsrc < n then mm "deflateBound asked for a shorter source than the input" [];
+           if cap < b then mm "deflate destination capacity below deflateBound (hypothesis of T15a_never_aborts)" [ "bound", JI b ]
+         | [] -> bump acc "zlib_no_deflateBound_call";
+           (* no bound requested: compare with the documented worst case of the default wrapper *)
+           if cap < n + (n lsr 12) + (n lsr 14) + (n lsr 25) + 13 then mm "deflate destination capacity below zlib's documented worst case (hypothesis of T15a_never_aborts)" []))
+   | [], None -> ()
+   | [], Some _ -> if n <= 2113929216 then mm "no library compression call where the model makes one" []
+   | _, _ -> mm "number of library compression calls differs from the model (one per wrapper call)" []);
+  (* decompression: the decompressor is offered exactly the original size (lz4 prefix, zstd frame size, snappy length) *)
+  List.iter (fun (fn, _, _, cap, _) ->
+    if (fn = 3 || fn = 5 || fn = 7) && cap <> n then
+      mm "the decompressor was offered a capacity different from the original size (hypothesis of T15a_roundtrip)" []) dc;
+  (* zlib grow loop: how often it was taken *)
+  let infl = List.filter (fun (fn, _, _, _, _) -> fn = 11) dc in
+  if infl <> [] then begin
+    bumpn acc "inflate_calls" (List.length infl);
+    if List.length infl > 1 then bump acc "inflate_grow_loop_taken"
+  end
 
 let check acc ~klass alg lvl (s : string) =
   let case = lazy (JO [ "alg", JI alg; "level", (match lvl with None -> JS "default" | Some l -> JI l); "len", JI (String.length s);
                         "head", JS (hex (String.sub s 0 (min 16 (String.length s)))) ]) in
   record acc ~key:(Printf.sprintf "%d/%s/%s" alg (match lvl with None -> "d" | Some l -> string_of_int l) (Digest.string s))
     ~nontrivial:(String.length s >= 1 || lvl <> None) ~klass case;
-  let r = roundtrip alg lvl s in
+  let (r, cc, dc) = roundtrip alg lvl s in
   bump acc ("outcome_" ^ r);
   (* model: with the documented library contracts the wrappers succeed and round-trip for inputs below INT_MAX *)
   if r <> "OK" then begin
     fail acc ~kind:"model_mismatch" ~what:"[C15] round-trip outcome (model: succeeds)" (JO [ "case", Lazy.force case; "impl", JS r ]);
     if r <> "COMPRESS_FAILED" then
       fail acc ~kind:"spec_violation" ~what:("[C15] compress/decompress did not return the input: " ^ r) (Lazy.force case)
-  end
+  end;
+  if r = "OK" || r = "COMPRESS_FAILED" || r = "DECOMPRESS_FAILED" || r = "MISMATCH" then
+    check_boundary acc case alg lvl (String.length s) cc dc
+
+(* the bound formulas written in model/Compress.v against the libraries' own functions *)
+let check_bounds acc ~tier =
+  let pts = ref [] in
+  for i = 0 to 600 do pts := i :: !pts done;
+  for k = 8 to 31 do List.iter (fun d -> let v = (1 lsl k) + d in if v >= 0 && v <= 2147483647 then pts := v :: !pts) [ -2; -1; 0; 1; 2; 254; 255; 256 ] done;
+  List.iter (fun v -> pts := v :: !pts) [ 131071; 131072; 131073; 129024; 2113929215; 2113929216; 2113929217; 2147483646; 2147483647; 65535 * 255; 6 * 1000003 ];
+  let st = case_rng ~seed:1 ~engine ~index:77 in
+  for _ = 1 to (if tier = "thorough" then 200000 else 5000) do pts := rint st 0x3fffffff * 2 + rint st 2 :: !pts done;
+  List.iter (fun v ->
+    record acc ~key:(Printf.sprintf "bound%d" v) ~nontrivial:true ~klass:"bound_formulas" (lazy (JO [ "n", JI v ]));
+    let chk name which m =
+      let r = Int64.to_int (c_lib_bound which (Int64.of_int v)) in
+      if r <> int_of_n m then
+        fail acc ~kind:"model_mismatch" ~what:("[C15] " ^ name ^ ": the formula in model/Compress.v differs from the library") (JO [ "n", JI v; "library", JI r; "model", JI (int_of_n m) ]) in
+    chk "LZ4_compressBound" 0 (lz4_bound (n_of_int v));
+    chk "ZSTD_compressBound" 1 (zstd_bound (n_of_int v));
+    chk "snappy_max_compressed_length" 2 (snappy_bound (n_of_int v))) !pts
+
+(* sizes above INT_MAX: lz4 / lz4hc / zstd compression and lz4 / zstd decompression refuse at once (the model's
+   gates); the buffer is a sparse zero mapping that a correct wrapper never reads *)
+let check_huge acc =
+  List.iter (fun (alg, dec) ->
+    let case = lazy (JO [ "alg", JI alg; "decompress", JB dec; "size", JS "INT_MAX + 1" ]) in
+    record acc ~key:(Printf.sprintf "huge%d%b" alg dec) ~nontrivial:true ~klass:"above_INT_MAX" case;
+    let old = !child_time_limit in
+    child_time_limit := 60;
+    let r = in_child (fun () -> string_of_int (c_huge_call alg dec 2147483648L)) in
+    child_time_limit := old;
+    (match r with
+     | Exited (_, "0") -> ()
+     | Exited (_, "-1") -> bump acc "huge_mapping_unavailable"
+     | Exited (_, o) -> fail acc ~kind:"model_mismatch" ~what:"[C15] a size above INT_MAX was not refused (the model's INT_MAX gate)" (JO [ "case", Lazy.force case; "impl", JS o ])
+     | Signaled (sg, _) ->
+       fail acc ~kind:"model_mismatch" ~what:"[C15] a size above INT_MAX was not refused (the model's INT_MAX gate)" (JO [ "case", Lazy.force case; "signal", JI sg ]);
+       if sg = Sys.sigabrt then fail acc ~kind:"spec_violation" ~what:"[C15] compression wrapper aborted on a buffer larger than INT_MAX" (Lazy.force case)))
+    [ (3, false); (4, false); (5, false); (3, true); (4, true); (5, true) ]
 
 let content st kind n = match kind with
   | 0 -> String.make n '\000' | 1 -> String.init n (fun i -> Char.chr (i land 255))
@@ -95,6 +225,8 @@ let run ~tier ~seed ~only acc =
   let want () = cur_index := !idx; (match only with None -> true | Some i -> i = !idx) in
   if want () then check_names acc; incr idx;
   if want () then check_threads acc ~tier; incr idx;
+  if want () then check_bounds acc ~tier; incr idx;
+  if want () then check_huge acc; incr idx;
   let st0 = case_rng ~seed ~engine ~index:0 in
   (* every small length x contents x algorithm, default level; levels sampled *)
   for n = 0 to 64 do
